@@ -146,6 +146,9 @@ def samples(lanes, rng, n):
     for l in lanes:
         groups.setdefault((l.args[0], l.w), []).append(l)
     gl = list(groups.values())
+    # the origin and the all-ones point first (degenerate-argument arms: |u| < epsilon, x == y ...)
+    yield {l: Fraction(0) for l in lanes}
+    yield {l: Fraction(1) for l in lanes}
     for i in range(n):
         env = {l: rng.choice(POOL) for l in lanes}
         mode = rng.random()
